@@ -7,7 +7,8 @@ def m(id, prop, rule, file, old, new): M.append(dict(id=id, prop=prop, rule=rule
 m("M01","C01","R01.3","provider.go","""		if _, exists := p.getSingleton(key); exists {
 			continue
 		}
-""","")
+""","""		_ = key
+""")
 m("M02","C01","R01.2","scope.go","""		// Singleton should have been created at build time
 		return nil, &ResolutionError{
 			ServiceType: key.Type,
@@ -422,3 +423,57 @@ m("M60","C08","R08.2","collection.go","""	p.rootScope = newUninitializedScope(p,
 		return nil, &BuildError{Phase: "scope-creation", Details: "failed to create root scope", Cause: err}
 	}
 """)
+
+# --- second batch: suite-surviving candidates for properties whose first mutants were all killed
+m("M61","C02","R02.6","scope.go","""	child, err := newScope(s.rootProvider, s, ctx, cancel)
+	if err != nil {
+		return nil, fmt.Errorf("failed to create child scope: %w", err)
+	}
+""","""	child := newUninitializedScope(s.rootProvider, s, ctx, cancel)
+""")
+m("M62","C02","R-KEYLIT","scope.go","""		if s.instances != nil {
+			s.instances[key] = instance
+		}
+""","""		if s.instances != nil {
+			s.instances[instanceKey{Type: key.Type, Key: key.Key}] = instance
+		}
+""")
+m("M64","C18","R18.1","scope.go","""			case contextType:
+				return s.context, nil""","""			case contextType:
+				return s.rootProvider.rootScope.context, nil""")
+m("M66","C18","R18.3","scope.go","""	ctx = context.WithValue(ctx, scopeContextKey{}, s)
+	s.context = ctx
+""","""	if parent != nil {
+		ctx = context.WithValue(ctx, scopeContextKey{}, parent)
+	} else {
+		ctx = context.WithValue(ctx, scopeContextKey{}, s)
+	}
+	s.context = ctx
+""")
+m("M68","C20","R20.3","module.go","""		c.RemoveKeyed(reflect.TypeOf((*T)(nil)).Elem(), key)""","""		_ = key
+		c.Remove(reflect.TypeOf((*T)(nil)).Elem())""")
+m("M69","C20","R20.1","module.go","""			if builder == nil {
+				continue
+			}
+
+			if err := builder(s); err != nil {""","""			if err := builder(s); err != nil {""")
+m("M70","C20","R20.2","collection.go","""		if err := module(sc); err != nil {
+			return err
+		}
+	}
+
+	return nil
+}""","""		if err := module(sc); err != nil {
+			lastErr = err
+		}
+	}
+
+	return lastErr
+}""")
+M[-1]["old"] = "func (sc *collection) AddModules(modules ...ModuleOption) error {\n\tfor _, module := range modules {\n\t\tif module == nil {\n\t\t\tcontinue\n\t\t}\n\n" + M[-1]["old"]
+M[-1]["new"] = "func (sc *collection) AddModules(modules ...ModuleOption) error {\n\tvar lastErr error\n\tfor _, module := range modules {\n\t\tif module == nil {\n\t\t\tcontinue\n\t\t}\n\n" + M[-1]["new"]
+m("M71","C20","R20.3","module.go","""		return s.AddTransient(service, opts...)""","""		return s.AddScoped(service, opts...)""")
+m("M72","C18","R18.2","provider.go","""		_, err := p.rootScope.createInstance(descriptor)""","""		_, err := (&scope{rootProvider: p, context: context.Background(), instances: map[instanceKey]any{}}).createInstance(descriptor)""")
+
+m("M73","C20","R20.1","module.go","""				return ModuleError{Module: name, Cause: err}""","""				return ModuleError{Module: name, Cause: ModuleError{Module: name, Cause: err}}""")
+m("M74","C20","R20.1","module.go","""				return ModuleError{Module: name, Cause: err}""","""				return ModuleError{Module: "", Cause: err}""")
